@@ -1,6 +1,7 @@
 package main
 
 import (
+	"go/token"
 	"fmt"
 	"go/types"
 	"sort"
@@ -604,6 +605,12 @@ func (a *Analysis) nonNilErrGlobals() map[*ssa.Global]bool {
 					if c := call.Call.StaticCallee(); c != nil {
 						n := fullName(c)
 						good = n == "errors.New" || n == "fmt.Errorf"
+					}
+				}
+				// an alias of a standard-library sentinel (var ErrTruncated = io.ErrUnexpectedEOF)
+				if ld, ok := st.Val.(*ssa.UnOp); ok && isInitFunc(fn) && ld.Op == token.MUL {
+					if sg, ok := ld.X.(*ssa.Global); ok && sg.Pkg != nil && !strings.HasPrefix(sg.Pkg.Pkg.Path(), modulePath) && isErrorType(sg.Type().(*types.Pointer).Elem()) {
+						good = true
 					}
 				}
 				if good && count[g] == 1 {
